@@ -7,7 +7,7 @@ Definition escape_event (e : event) : bool :=
   match e with
   | ELookup _ (LFail k) | EMeta _ (RFail k) | EParts _ (PFail k) => negb (is_kafka k)
   | EJoin _ (JOk _ _ role) => negb (role =? 0) && negb (role =? 1)
-  | EParts _ PMissing | ESync _ SBadNonKafka => true
+  | EParts _ PMissing | ESync _ SBadNonKafka | ESync _ (SOkRaise _ _) => true
   | _ => false
   end.
 Definition benign (evs : list event) : bool := forallb (fun e => negb (escape_event e)) evs.
@@ -139,7 +139,7 @@ Proof.
   - unfold on_parts. apply k_with_gen. intros g. destruct r as [| |k]; try discriminate.
     + intros s0. destruct (stop_pend s0); [apply k_gen_end|apply k_send_sync].
     + intros s0. rewrite gen_fail_esc. cbn in EE. rewrite EE. apply orb_false_r.
-  - unfold on_sync. apply k_with_gen. intros g. destruct r as [asg| | |k]; try discriminate.
+  - unfold on_sync. apply k_with_gen. intros g. destruct r as [asg| | |k|asg n]; try discriminate.
     + intros s0. destruct (stop_pend s0); [apply k_gen_end|].
       rewrite !seq_fst. unfold upd at 1 2, gen_end. cbn [fst]. rewrite reset_hb_fst.
       match goal with |- escaped (fst (upd _ ?x)) = _ => rewrite (k_gen_end x || eq_refl) end || idtac.
